@@ -2,8 +2,12 @@
    Statements only; every proof is [exact <lemma of Proofs/>]. *)
 From Coq Require Import List Arith ZArith Bool.
 Import ListNotations.
+From Eudoxia Require Import Model.Sched Model.Simulator Proofs.PriorityPoolRunFacts Proofs.SimReachFacts
+  Proofs.AuditExamplesA.
 From Eudoxia Require Import Model.Types Model.Dag Model.Lifecycle Model.Container Model.Pool Model.Executor
   Proofs.LifecycleFacts Proofs.ExecLifeFacts.
+Close Scope Q_scope.
+Close Scope Z_scope.
 
 (* The table the code consults is exactly the documented machine (the eight edges of the property
    text). Bridge obligation [valid_transitions] ties [valid_table] to the source on every run. *)
@@ -90,3 +94,59 @@ Example C02_witness :
   let S := mk_static [(Batch, [[]; [0]])] in
   exists w', transition_all S (init_world S) [0; 1] Assigned = Ok w' /\ st_of w' 1 = Assigned.
 Proof. eexists. split; vm_compute; reflexivity. Qed.
+
+(* "Per-state counts": in every reachable executor state (arbitrary in-range commands, pipelines built from
+   well-formed DAGs) [state_counts] is the histogram of the operator states: cell [a] of pipeline [k]
+   counts the operators of [k] in state [a]; the tables have the right shape *)
+Theorem C02_counts_are_histogram_every_reachable : forall C l n cpu ram s,
+  cf_static C = mk_static l -> dags_wf l ->
+  reach_exec_r C (init_estate C n cpu ram) s ->
+  length (w_st (e_world s)) = length (s_ops (cf_static C)) /\
+  length (w_cnt (e_world s)) = length (s_pipes (cf_static C)) /\
+  (forall k, k < length (s_pipes (cf_static C)) -> length (nth k (w_cnt (e_world s)) []) = 6) /\
+  (forall k a, cnt_of (e_world s) k a =
+     Z.of_nat (length (filter (fun o => ostate_eqb (st_of (e_world s) o) a)
+                              (pd_order (pipe_of (cf_static C) k))))).
+Proof. exact AuditA.hist_ok_every_reachable. Qed.
+Print Assumptions C02_counts_are_histogram_every_reachable.
+
+(* Simulator level, every shipped scheduler [a], between any two states of one run: a completed operator
+   never changes state again. No hypothesis on the static data is needed: every request of a run (the
+   scheduler's ASSIGNED requests and the executor's) goes through the checked [transition]. *)
+Theorem C02_sim_finality : forall C a t s t' s' o,
+  sim_reach C a t s t' s' ->
+  st_of (e_world (sm_exec s)) o = Completed -> st_of (e_world (sm_exec s')) o = Completed.
+Proof. exact sim_completed_final. Qed.
+Print Assumptions C02_sim_finality.
+
+(* ... and in every state of every run an operator belongs to at most one live container, and an owned
+   operator is Assigned, Running or Suspending (C02_unique_owner, C02_owned_busy through the link
+   "states of a run are [reach_exec_r]-reachable") *)
+Theorem C02_sim_unique_owner : forall C a l np cpu ram t s,
+  cf_static C = mk_static l -> dags_wf l ->
+  sim_reach C a 0%Z (init_sim C np cpu ram) t s ->
+  NoDup (sown (sm_exec s)) /\
+  forall o, In o (sown (sm_exec s)) -> busy (st_of (e_world (sm_exec s)) o).
+Proof. exact sim_unique_owner. Qed.
+Print Assumptions C02_sim_unique_owner.
+
+(* ... and the per-state counts are the histogram *)
+Theorem C02_sim_counts_are_histogram : forall C a l np cpu ram t s,
+  cf_static C = mk_static l -> dags_wf l ->
+  sim_reach C a 0%Z (init_sim C np cpu ram) t s ->
+  forall k x, cnt_of (e_world (sm_exec s)) k x =
+     Z.of_nat (length (filter (fun o => ostate_eqb (st_of (e_world (sm_exec s)) o) x)
+                              (pd_order (pipe_of (cf_static C) k)))).
+Proof. exact AuditA.counts_ok_sim_all. Qed.
+Print Assumptions C02_sim_counts_are_histogram.
+
+(* non-vacuity: the diamond of SimReachExamples under each scheduler; operators 0, 1, 2 are completed after
+   three ticks and stay so to the end of the run *)
+Example C02_sim_witness : forall a o,
+  st_of (e_world (sm_exec (SimReachExamples.mid a))) o = Completed ->
+  st_of (e_world (sm_exec (SimReachExamples.final a))) o = Completed.
+Proof. exact SimReachExamples.mid_final_finality. Qed.
+Example C02_sim_witness_nontrivial : forall a,
+  st_of (e_world (sm_exec (SimReachExamples.mid a))) 1 = Completed /\
+  (exists t', sim_reach SimReachExamples.Cx a 3%Z (SimReachExamples.mid a) t' (SimReachExamples.final a)).
+Proof. intros a. split; [destruct a; vm_compute; reflexivity | apply SimReachExamples.mid_final_reach]. Qed.
